@@ -426,7 +426,7 @@ def evaluate(ctx, col):
     if canary:
         cases.append(c_case(canary))
         ctx.canaries += 1
-    res = ctx.coq_cases('steps', REQ, FN, cases, K, shard=250, preamble=PRE)
+    res = ctx.coq_cases('steps', REQ, FN, cases, K, shard=500, preamble=PRE)
     if canary:
         ag, ho = res[-1][0], res[-1][1]
         if not ag and not ho:
@@ -476,29 +476,35 @@ def run(ctx):
     col = Collector(ctx)
     rng = ctx.rng
     thorough = ctx.tier == 'thorough'
-    # 1. exhaustive single steps on all DAGs <= 4 nodes, both constructor orders
+    # 1. exhaustive single steps on all DAGs <= 4 nodes (thorough: both constructor orders for 4 nodes too)
     for n in range(0, 5):
         for pl in dags(n):
-            for order in ([tuple(range(n)), tuple(reversed(range(n)))] if n > 1 else [tuple(range(n))]):
+            orders = [tuple(range(n))]
+            if n > 1 and (thorough or n < 4):
+                orders.append(tuple(reversed(range(n))))
+            for order in orders:
                 explore(col, 'exhaustive-1', (pl, order), 1, True)
     ctx.set_exhaustive('exhaustive-1', True)
     # 2. sequences of length 2 (and 3)
-    w2 = ctx.budget(6, 10 ** 6) if not thorough else None
-    for n in range(1, 4):
-        for pl in dags(n):
-            explore(col, 'sequences', (pl, tuple(range(n))), 2, False, rng, w2)
     if thorough:
-        for pl in dags(4):
-            explore(col, 'sequences', (pl, tuple(range(4))), 2, False, rng, 12)
         for n in range(1, 4):
             for pl in dags(n):
-                explore(col, 'sequences', (pl, tuple(reversed(range(n)))), 3, False, rng, 5)
+                explore(col, 'sequences', (pl, tuple(range(n))), 2, False, rng, None)
+        for pl in dags(4):
+            explore(col, 'sequences', (pl, tuple(range(4))), 2, False, rng, 10)
+        for n in range(1, 4):
+            for pl in dags(n):
+                explore(col, 'sequences', (pl, tuple(reversed(range(n)))), 3, False, rng, 4)
     else:
-        for pl in rng.sample(dags(4), 16):
+        w2 = ctx.budget(4, 4)
+        for n in range(1, 4):
+            for pl in dags(n):
+                explore(col, 'sequences', (pl, tuple(range(n))), 2, False, rng, w2)
+        for pl in rng.sample(dags(4), 12):
             explore(col, 'sequences', (pl, tuple(range(4))), 2, False, rng, 2)
     ctx.set_exhaustive('sequences', False)
     # 3. random larger graphs, longer sequences
-    for _ in range(ctx.budget(150, 4000)):
+    for _ in range(ctx.budget(100, 3000)):
         random_sequence(col, 'random', rng, rng.randint(3, 12), rng.randint(3, 8))
     ctx.set_exhaustive('random', False)
     evaluate(ctx, col)
